@@ -21,7 +21,7 @@ FORBIDDEN = re.compile(
 TRUSTED_BASE_COMMON = [
     "Coq 8.16.1 kernel (coqc; vm_compute used in *_refuted / Example lemmas; no native_compute)",
     "Coq extraction to OCaml with ExtrOcamlBasic only (bool, option, unit, list, prod, sumbool, sumor mapped; andb/orb inlined); nat/positive/N/Z stay extracted inductives",
-    "OCaml 4.13.1 and /verif/ocaml/driver.ml (decimal parsing/printing, dispatch)",
+    "OCaml 4.13.1 and /verif/ocaml/driver.ml (decimal parsing/printing, dispatch); on every run a sample of the model evaluations (short inputs, up to 30) is re-evaluated inside Coq with vm_compute and compared with the extracted program's answers (coverage.extraction_crosscheck_in_coq_kernel)",
     "Rust correspondence harness under /verif/harness, the generators and comparison in /verif/bin",
     "hand-written Gallina model of the anchored Rust code (tied to /repo only by the correspondence check of this run)",
 ]
@@ -405,6 +405,18 @@ class Run:
     def finish(self, extra_trusted=(), assumptions=()):
         pr = self.proof
         cov = self.cov
+        # extraction cross-check: a sample of this run's model evaluations re-evaluated inside Coq (vm_compute, no extraction)
+        try:
+            import kernelcheck
+            kc = kernelcheck.crosscheck()
+            cov["extraction_crosscheck_in_coq_kernel"] = {k: v for k, v in kc.items() if k != "mismatch"}
+            if kc.get("mismatch"):
+                self.violation({"kind": "correspondence-broken (the extracted OCaml model and the Gallina definition evaluated inside Coq disagree on an input of this run)",
+                                "correspondence": "extracted driver vs coqc vm_compute", **kc["mismatch"]}, name=f"extraction-{self.tier}.json", no_input=True)
+            elif kc.get("error"):
+                self.notes.append("extraction cross-check not performed: " + kc["error"])
+        except Exception as ex:
+            self.notes.append(f"extraction cross-check not performed: {ex}")
         if pr is not None:
             cov["obligations"] = pr.obligations
             cov["discharged"] = pr.discharged
@@ -510,6 +522,11 @@ def driver_eval(lines, timeout=1800):
     rc, out, err = run_lines(DRIVER, lines, timeout=timeout)
     if rc != 0 or len(out) != len(lines):
         raise RuntimeError(f"driver failed rc={rc} ({len(out)}/{len(lines)} lines): {err[-500:]}")
+    try:
+        import kernelcheck
+        kernelcheck.offer(lines, out)
+    except Exception:
+        pass
     return out
 
 
